@@ -371,9 +371,9 @@ def run(tier: str, seed: int) -> dict:
     rng = random.Random(seed)
     core = list(core_cases())
     if tier == 'quick':
-        nrand, procs = 500, 1
+        nrand, procs = 400, 1
     else:
-        nrand, procs = 40000, min(16, os.cpu_count() or 1)
+        nrand, procs = 12000, min(16, os.cpu_count() or 1)
     rand = [random_case(rng) for _ in range(nrand)]
     cases = core + rand
     if procs > 1:
